@@ -255,7 +255,11 @@ export class ProcGenWrapper {
         }
         const elem = this.shadowRoot.createTextNode(textContent)
         elem.destroyBackendElementOnRemoval()
-        if (slotElement) Element.setSlotElement(elem, slotElement)
+        if (slotElement) {
+          Element.setSlotElement(elem, slotElement)
+          // (the update of slot content skips the nodes that are not marked as matched)
+          getTmplArgs(elem).dynamicSlotNameMatched = true
+        }
         if (textInit) textInit(elem)
         childNodes.push(elem)
       },
